@@ -165,6 +165,7 @@ class Doc:
                                           '{# multi', 'line #}'][0:3] + ['{# c #}']))
         else:
             self.lines.append(rng.choice(['    ' * self.depth + 'jk = {{ V }} \\', '{{ "# generated comment \\\\ " }}',
+                                          '    ' * self.depth + 'gen = {{ "a \\\\" }}', '{{ "gc = b, \\\\" }}',
                                           '{{ "x" }}{{ "=" }}1', '{{ "%include gen.cylc" if FLAG else "# no" }}']))
 
     def step(self, allow_include=True, level=0, in_loop=False):
@@ -338,6 +339,8 @@ class C36(Prop):
             mk({'flow.cylc': '[a]\n  k = v \\\\'}),
             mk({'flow.cylc': '#!Jinja2\n{{ "#!jinja2" }}\n[a]\n x = {{ "{{ V }}" }}\n'}),
             mk({'flow.cylc': '[a]\n%include "x.cylc\'\n', 'x.cylc': 'k = 1\n'}),
+            # continuation lines that only exist after Jinja2 has run
+            mk({'flow.cylc': '#!jinja2\n[a]\n    gen = {{ "a \\\\" }}\n    b\n{% for i in range(2) %}\n    k{{ i }} = {{ "x, \\\\" }}\n        y\n{% endfor %}\n'}),
             mk({'flow.cylc': '[a]\n  %include  \'sub/x y.cylc\'  \n  z = 2\n', 'sub/x y.cylc': 'k = 1 # c\n%include sub/z.cylc\n', 'sub/z.cylc': '[[b]]\n'}),
         ]
 
@@ -357,7 +360,7 @@ class C36(Prop):
         return self.mk(files)
 
     def gen(self, tier, rng):
-        n = {'quick': 1200, 'thorough': 30000, 'search': 12000}[tier]
+        n = {'quick': 800, 'thorough': 12000, 'search': 8000}[tier]
         for _ in range(n):
             yield self.random_case(rng)
 
